@@ -46,7 +46,7 @@ class Diagonalization(Function):
 
         mins = torch.diagonal(t_mat, dim1=-1, dim2=-2).min(dim=-1, keepdim=True)[0]
         jitter_val = settings.tridiagonal_jitter.value()
-        jitter_mat = torch.diag_embed(jitter_val * mins).expand_as(t_mat)
+        jitter_mat = (jitter_val * mins).unsqueeze(-1) * torch.eye(t_mat.size(-1), device=t_mat.device, dtype=t_mat.dtype)
         eigenvalues, eigenvectors = lanczos.lanczos_tridiag_to_diag(t_mat + jitter_mat)
 
         # Get orthogonal matrix and eigenvalues
